@@ -35,12 +35,24 @@ def pack(codes):
     return v
 
 
+def shape_ok(got, codes):
+    """identifications containing codes outside the Annex 10 alphabet are not covered by the statement: each such code
+    may be rendered as '#' or dropped (the two decoders differ, and either may change); the legal characters must still
+    come out, in order."""
+    import re
+    if not isinstance(got, str):
+        return False
+    pat = "".join(re.escape(LEGAL[c]) if c in LEGAL else "#?" for c in codes)
+    return re.fullmatch(pat, got) is not None
+
+
 def judge(kind, codes, msg, extra=None):
     exp_adsb = "".join(LEGAL.get(c, "") for c in codes)
     exp_20 = "".join(LEGAL.get(c, "#") for c in codes)
+    all_legal = all(c in LEGAL for c in codes)
     if kind == "callsign":
         r = call(pms.adsb.callsign, msg)
-        if r != ("ok", exp_adsb):
+        if (r != ("ok", exp_adsb)) if all_legal else (r[0] != "ok" or not shape_ok(r[1], codes)):
             return "callsign" + (":raises" if r[0] == "exc" else "")
         r = call(pms.adsb.category, msg)
         if r != ("ok", extra):
@@ -48,7 +60,7 @@ def judge(kind, codes, msg, extra=None):
         return None
     if kind == "cs20":
         r = call(pms.commb.cs20, msg)
-        if r != ("ok", exp_20):
+        if (r != ("ok", exp_20)) if all_legal else (r[0] != "ok" or not shape_ok(r[1], codes)):
             return "cs20" + (":raises" if r[0] == "exc" else "")
         r = call(pms.commb.is20, msg)
         legal = all(c in LEGAL for c in codes)
